@@ -77,6 +77,28 @@ def gen_program(rng, features=None, n_nodes=None, n_modules=None):
             nd["recur"] = False
             nd["builtin"] = None
         nodes.append(nd)
+    # two variables with the same name in different modules, read by one function through two prefixes (G and a1.G,
+    # or a1.G and a2.G)
+    if n_modules >= 2 and rng.random() < F.get("p_samename", 0.3):
+        ma = rng.randrange(n_modules - 1)
+        mb = rng.randrange(ma + 1, n_modules)
+        if pkg[ma] == pkg[mb]:
+            kind = rng.choice(["int", "str", "list"])
+            ids = []
+            for mm in (ma, mb):
+                gid = len(glob)
+                glob.append({"id": gid, "name": "GS", "module": mm, "kind": kind, "value": _gval(kind, 1 + len(ids))})
+                ids.append(gid)
+            readers = [nd for nd in nodes if nd["module"] <= ma and pkg[nd["module"]] == pkg[ma] and not nd.get("frozen")]
+            if readers:
+                rd = readers[rng.randrange(len(readers))]
+                rd["globals"] = [g for g in rd["globals"] if g not in ids] + ids
+    for nd in nodes:
+        if nd["kind"] == "plain" and not nd.get("frozen") and rng.random() < F.get("p_lambda", 0.35):
+            nd["lam"] = True      # a plain helper written as a lambda bound to a name
+    for nd in nodes:
+        if not nd.get("frozen") and rng.random() < F.get("p_setdef", 0.15):
+            nd["setdef"] = 1      # a default value the codec cannot encode (a set of strings): never edited, only hashed (or not)
     # call edges: i -> j with j > i and module(j) >= module(i)
     for i, nd in enumerate(nodes):
         if nd.get("frozen"):
@@ -94,6 +116,10 @@ def gen_program(rng, features=None, n_nodes=None, n_modules=None):
                     form = "wrapped"      # reference through a functools.wraps decorator wrapper
                 if tj["kind"] == "memento" and nd["explicit"] is None and r > 1 - F.get("p_hidden", 0.1):
                     form = "hidden"
+                elif form == "bare" and nd["kind"] == "memento" and rng.random() < F.get("p_declared", 0.0):
+                    # the callee is named only in dependencies=[...] of the decorator and called dynamically: a declared
+                    # (required) dependency; the library resolves it when the caller is defined, so the callee comes first
+                    form = "declared"
                 nd["calls"].append({"to": j, "form": form})
     # mutual recursion: a back edge j -> i (i < j, same module) closes a cycle through the forward edges; it passes
     # x - 1 and is taken only while x > 0, so every cycle terminates (forward edges pass x unchanged)
@@ -160,6 +186,31 @@ def units_of(prog, mi):
     return us
 
 
+def declared_first(prog, order):
+    """Move every caller of a declared dependency behind its callee (and the caller's aliases / wrappers behind the
+    caller): the library resolves dependencies=[...] while the caller is being defined."""
+    order = [tuple(u) for u in order]
+    for _ in range(len(order) * len(order) + 1):
+        moved = False
+        for nd in prog["nodes"]:
+            for c in nd["calls"]:
+                if c["form"] != "declared":
+                    continue
+                a, b = ("n", nd["id"]), ("n", c["to"])
+                if a in order and b in order and order.index(a) < order.index(b):
+                    order.remove(a)
+                    order.insert(order.index(b) + 1, a)
+                    moved = True
+        for u in list(order):
+            if u[0] in ("a", "w") and ("n", u[1]) in order and order.index(u) < order.index(("n", u[1])):
+                order.remove(u)
+                order.insert(order.index(("n", u[1])) + 1, u)
+                moved = True
+        if not moved:
+            break
+    return order
+
+
 def default_order(prog, mi):
     us = units_of(prog, mi)
     # aliases must follow their target's definition
@@ -167,7 +218,7 @@ def default_order(prog, mi):
     for u in us:
         if u[0] in ("a", "w"):
             out.insert(out.index(("n", u[1])) + 1, u)
-    return [list(u) for u in out]
+    return [list(u) for u in declared_first(prog, out)]
 
 
 def permuted_order(prog, mi, rng):
@@ -178,7 +229,7 @@ def permuted_order(prog, mi, rng):
     for u in us:
         if u[0] in ("a", "w"):
             out.insert(out.index(("n", u[1])) + 1 + rng.randrange(0, len(out) - out.index(("n", u[1]))), u)
-    return [list(u) for u in out]
+    return [list(u) for u in declared_first(prog, out)]
 
 
 def mod_alias(mi):
@@ -223,6 +274,8 @@ def call_expr(prog, nd, c):
         return "al_%s(x)" % t["name"]
     if c["form"] == "wrapped":
         return "w_%s(x)" % t["name"]
+    if c["form"] == "declared":
+        return 'globals()["%s"](x)' % t["name"]
     if c["form"] == "hidden":
         if t["module"] == nd["module"]:
             return 'globals()["%s"](x)' % t["name"]
@@ -270,6 +323,8 @@ def render_node(prog, nid, decorator="m.memento_function"):
     params = ["x"]
     if nd["posdef"] is not None:
         params.append("y=%d" % nd["posdef"])
+    if nd.get("setdef"):
+        params.append('s={"sa", "sb", "sc"}')
     for j in nd.get("fparams") or []:
         params.append("p%d=None" % j)
     if nd["kwdef"] is not None:
@@ -281,6 +336,9 @@ def render_node(prog, nid, decorator="m.memento_function"):
             args.append("version=%r" % nd["explicit"])
         if nd["salt"] is not None:
             args.append("version_salt=%r" % nd["salt"])
+        decl = [prog["nodes"][c["to"]]["name"] for c in nd["calls"] if c["form"] == "declared"]
+        if decl:
+            args.append("dependencies=[%s]" % ", ".join('"%s"' % d for d in decl))
         lines.append("@%s%s" % (decorator, "(%s)" % ", ".join(args) if args else ""))
     lines.append("def %s(%s):" % (nd["name"], ", ".join(params)))
     lines.append('    __vtrace__("%s", x)' % nd["name"])
@@ -329,6 +387,8 @@ def render_node(prog, nid, decorator="m.memento_function"):
         items.append("abs(x)")
     if nd["recur"]:
         items.append("%s(x - 1)" % nd["name"])
+    if nd.get("lam") and nd["kind"] == "plain" and not nd["recur"] and not (nd["nested"] is not None and nd["nestkind"] == "innerdef"):
+        return '%s = lambda %s: (__vtrace__("%s", x), [%s])[1]\n' % (nd["name"], ", ".join(params), nd["name"], ", ".join(items))
     lines.append("    return [%s]" % ", ".join(items))
     return "\n".join(lines) + "\n"
 
@@ -360,6 +420,7 @@ def render_module(prog, mi, order=None, base=None):
                 known.insert(known.index(("n", u[1])) + 1, u)
             else:
                 known.append(u)
+    known = declared_first(prog, known)
     live = set(units_of(prog, mi))
     parts = [header(prog, mi, base)]
     for u in known:
@@ -684,6 +745,9 @@ def apply_edit(prog, e):
                 nd["explicit"] = None
                 nd["salt"] = None
                 nd["fparams"] = []
+                for c in nd["calls"]:
+                    if c["form"] == "declared":     # a plain function has no decorator to declare dependencies in
+                        c["form"] = "bare"
                 # a plain function cannot be passed as an argument to a memento function
                 for a in nodes:
                     if nd["id"] in (a.get("fparams") or []):
